@@ -1243,6 +1243,19 @@ M('C15', 'Sweep.sweep no longer stores an explicit chi_max after reading it with
   "                logger.info('Setting chi_max for env sweeps=%d', chi_max)\n",
   'OPTION-default-first')
 
+M('C14', 'original defect: TEBDEngine.calc_U stores the cache key before the gates are built', TEBD,
+  "            return  # nothing to do: U is cached\n        logger.info('Calculate U for %s', U_param)",
+  "            return  # nothing to do: U is cached\n        self._U_param = U_param\n        logger.info('Calculate U for %s', U_param)",
+  'CACHE-key-after-value')
+M('C14', 'original defect: ExpMPOEvolution.calc_U stores the cache key before the consistency check', EXPM,
+  "            return  # nothing to do: _U is cached\n        logger.info(",
+  "            return  # nothing to do: _U is cached\n        self._U_param = U_param\n        logger.info(",
+  'CACHE-key-after-value')
+M('C14', 'calc_U key stored after the gates but before the flag reset (twin)', TEBD,
+  "        self._U = U\n        self._U_param = U_param\n        self.force_prepare_evolve = False\n",
+  "        self._U_param = U_param\n        self._U = U\n        self.force_prepare_evolve = False\n",
+  None, expect='silent')
+
 # ---------------------------------------------------------------- C16 / C19
 M('C16', 'GMRES restart: relative residual norm used for normalisation (round-3 seed b)', KRY,
   """        self.total_error.append([npc.norm(self.rs[-1]) / self.b_norm])
